@@ -52,6 +52,7 @@ struct Options {
   bool traceCalls = false;
   std::map<size_t, uint64_t> fixed; size_t fixedSeen = 0; std::map<uint64_t, uint64_t> fixedVals;
   std::string shadowFile, traceOut, shadowInputs;
+  bool noGC = false;
   double slow = 1e9; unsigned solverTimeoutMs = 20000;
 } opt;
 
@@ -82,12 +83,21 @@ struct FuncInfo {
   std::vector<const BasicBlock*> defBlock;         // per reg index (nullptr for args)
 };
 
-struct State {
-  Node* pc; PMap mem; bool allowThrow = false;
+// every live State / Frame is linked into a global list: these are the roots of the garbage collector
+template <class T> struct Registered {
+  T* prevR; T* nextR; static T*& head() { static T* h = nullptr; return h; }
+  void link() { prevR = nullptr; nextR = head(); if (nextR) nextR->prevR = static_cast<T*>(this); head() = static_cast<T*>(this); }
+  void unlink() { if (prevR) prevR->nextR = nextR; else head() = nextR; if (nextR) nextR->prevR = prevR; }
+  Registered() { link(); } Registered(const Registered&) { link(); } Registered(Registered&&) { link(); }
+  Registered& operator=(const Registered&) { return *this; } Registered& operator=(Registered&&) { return *this; }
+  ~Registered() { unlink(); }
 };
-struct Frame {
-  FuncInfo* fi; std::vector<vs::Value> regs; std::vector<uint32_t> allocas;
-  const BasicBlock* cur; const BasicBlock* pred; BasicBlock::const_iterator ip;
+struct State : Registered<State> {
+  Node* pc = nullptr; PMap mem; bool allowThrow = false;
+};
+struct Frame : Registered<Frame> {
+  FuncInfo* fi = nullptr; std::vector<vs::Value> regs; std::vector<uint32_t> allocas;
+  const BasicBlock* cur = nullptr; const BasicBlock* pred = nullptr; BasicBlock::const_iterator ip;
   vs::Value ret; bool returned = false;
 };
 
@@ -122,14 +132,19 @@ static std::string locOf(const Instruction* I) {
   return s;
 }
 
+// ------------------------------------------------------------------------------------------------ tracked heap values
+static std::vector<PtrVal*> allPtrVals; static std::vector<AggVal*> allAggVals;
+static PtrVal* newPtrVal() { PtrVal* p = new PtrVal; p->mark = false; allPtrVals.push_back(p); return p; }
+static AggVal* newAggVal() { AggVal* a = new AggVal; a->mark = false; allAggVals.push_back(a); return a; }
+static AggVal* newAggVal(const AggVal& o) { AggVal* a = new AggVal(o); a->mark = false; allAggVals.push_back(a); return a; }
 // ------------------------------------------------------------------------------------------------ pointer helpers
 static const PtrVal* mkPtr1(Node* g, uint32_t obj, Node* off) {
   if (Terms::isTrue(g) && Terms::isC(off)) {
     std::string key((const char*)&obj, 4); key.append((const char*)&off->c, 8);
     auto it = ptrIntern.find(key); if (it != ptrIntern.end()) return it->second;
-    PtrVal* p = new PtrVal(); p->alts.push_back(PtrAlt{g, obj, off}); ptrIntern[key] = p; return p;
+    PtrVal* p = newPtrVal(); p->alts.push_back(PtrAlt{g, obj, off}); ptrIntern[key] = p; return p;
   }
-  PtrVal* p = new PtrVal(); p->alts.push_back(PtrAlt{g, obj, off}); return p;
+  PtrVal* p = newPtrVal(); p->alts.push_back(PtrAlt{g, obj, off}); return p;
 }
 static const PtrVal* nullPtr() { return mkPtr1(tm.T, 0, tm.mkConst(64, 0)); }
 static void addAlt(std::vector<PtrAlt>& v, Node* g, uint32_t obj, Node* off) {
@@ -141,7 +156,7 @@ static const PtrVal* mkPtrV(std::vector<PtrAlt>& v) {
   if (v.empty()) return nullPtr();      // unreachable value
   if (v.size() == 1) return mkPtr1(v[0].g, v[0].obj, v[0].off);
   if (v.size() > opt.maxAlts) inconclusive("pointer alternative set exceeds --max-alts");
-  PtrVal* p = new PtrVal(); p->alts = v; return p;
+  PtrVal* p = newPtrVal(); p->alts = v; return p;
 }
 static const PtrVal* ptrAdd(const PtrVal* p, Node* d) {
   if (Terms::isC(d) && d->c == 0) return p;
@@ -172,6 +187,7 @@ static void collectLeaves(Node* n, Node* g, std::vector<std::pair<Node*, uint64_
 static std::vector<std::pair<Node*, uint64_t>> enumerateValues(State& st, Node* n);
 static const PtrVal* intToPtr(State& st, Node* n) {
   if (n->w < 64) n = tm.mkZext(n, 64);
+  if (!n->cleaf) n = tm.simplifyUnder(n, st.pc);
   std::vector<std::pair<Node*, uint64_t>> leaves;
   if (n->cleaf) collectLeaves(n, tm.T, leaves); else leaves = enumerateValues(st, n);
   std::vector<PtrAlt> v;
@@ -215,7 +231,7 @@ static vs::Value mergeValue(Node* c, const vs::Value& a, const vs::Value& b) {
   if (a.k == vs::Value::PTR && b.k == vs::Value::PTR) return vs::Value::P(mergePtr(c, a.p, b.p));
   if (a.k == vs::Value::AGG && b.k == vs::Value::AGG) {
     if (a.a->el.size() != b.a->el.size()) inconclusive("merge of aggregates of different size");
-    AggVal* r = new AggVal(); for (size_t i = 0; i < a.a->el.size(); ++i) r->el.push_back(mergeValue(c, a.a->el[i], b.a->el[i])); return vs::Value::A(r);
+    AggVal* r = newAggVal(); for (size_t i = 0; i < a.a->el.size(); ++i) r->el.push_back(mergeValue(c, a.a->el[i], b.a->el[i])); return vs::Value::A(r);
   }
   if ((a.k == vs::Value::PTR && b.k == vs::Value::INT) || (a.k == vs::Value::INT && b.k == vs::Value::PTR)) {
     // keep pointer provenance whenever the integer side is a constant-leaf diagram (typically 0 from zero-filling)
@@ -345,7 +361,10 @@ static Node* freshUninit(unsigned w, const Obj& o, uint32_t off) {
   return tm.mkVar(w, "uninit" + std::to_string(uninitCounter++) + "@" + (o.name ? o.name : "obj") + std::to_string(o.id) + "+" + std::to_string(off), true);
 }
 // remove everything overlapping [off, off+size), keeping the non-overlapping remainders of partially covered cells
+static void watchNote(const Obj& o, uint32_t off, uint32_t size, const char* what);
+static uint32_t g_watchObjFwd();
 static void clearRange(Obj& o, uint32_t off, uint32_t size) {
+  if (g_watchObjFwd()) watchNote(o, off, size, "clear");
   uint32_t end = off + size; int i = o.findCell(off);
   std::vector<Cell> add;
   int j = i;
@@ -358,7 +377,13 @@ static void clearRange(Obj& o, uint32_t off, uint32_t size) {
   o.cells.erase(o.cells.begin() + i, o.cells.begin() + j);
   for (auto& c : add) { int k = o.findCell(c.off); o.cells.insert(o.cells.begin() + k, c); }
 }
+static uint32_t g_watchObj = 0, g_watchOff = 0; static Node* g_curPc = nullptr; static std::vector<uint64_t> g_refModelDbg;
+static uint32_t g_watchObjFwd() { return g_watchObj; }
+static void watchNote(const Obj& o, uint32_t off, uint32_t size, const char* what) {
+  if (o.id == g_watchObj && off <= g_watchOff && g_watchOff < off + size) { static uint32_t tag = 3000000000u; std::cerr << "WATCH obj" << o.id << "+" << off << " size " << size << ": " << what << " active=" << (g_curPc && !g_refModelDbg.empty() ? (int)tm.eval(g_curPc, g_refModelDbg, ++tag) : -1) << " at " << locOf(curInst) << "\n"; }
+}
 static void storeCell(Obj& o, uint32_t off, uint32_t size, const vs::Value& v) {
+  if (g_watchObj) watchNote(o, off, size, "store");
   int i = o.findCell(off);
   if (i < (int)o.cells.size() && o.cells[i].off == off && o.cells[i].size == size) { o.cells[i].v = v; return; }
   clearRange(o, off, size);
@@ -399,6 +424,11 @@ struct Access { Node* g; uint32_t obj; uint32_t off; };
 // memory-safety checks (null / dangling / freed / out of bounds) with the solver where they do not fold
 static std::vector<Access> resolveAccess(State& st, const PtrVal* p, uint64_t size, const char* what, bool isWrite) {
   std::vector<Access> out;
+  if (getenv("VSYMEX_DEBUG_ALTS") && p->alts.size() > 1 && !g_refModelDbg.empty()) {
+    static uint32_t tag = 2000000000u; int ntrue = 0;
+    if (tm.eval(st.pc, g_refModelDbg, ++tag)) { for (auto& a : p->alts) if (tm.eval(a.g, g_refModelDbg, ++tag)) ++ntrue;
+      if (ntrue != 1) { std::cerr << "ALTS: " << ntrue << " alternatives true under reference model at " << locOf(curInst) << ":"; for (auto& a : p->alts) std::cerr << " [obj " << a.obj << " size " << (a.obj ? objSize[a.obj] : 0) << " off " << tm.str(a.off, 2) << " g=" << tm.eval(a.g, g_refModelDbg, ++tag) << "]"; std::cerr << "\n"; } }
+  }
   for (auto& a : p->alts) {
     if (Terms::isFalse(tm.mkAnd(st.pc, a.g))) continue;
     if (a.obj == 0) { checkCond(st, tm.mkNot(a.g), a.off->taint ? "uninit-pointer" : "null-deref", std::string(what) + (a.off->taint ? " through a pointer read from uninitialised memory: " : " through null/invalid pointer: ") + tm.str(a.off, 3) + " guard " + tm.str(a.g, 4)); continue; }
@@ -414,6 +444,12 @@ static std::vector<Access> resolveAccess(State& st, const PtrVal* p, uint64_t si
       }
       out.push_back(Access{a.g, a.obj, (uint32_t)a.off->c});
     } else {
+      Node* aoff = tm.simplifyUnder(a.off, tm.mkAnd(st.pc, a.g));      // drop merge junk that cannot matter here
+      if (Terms::isC(aoff)) {
+        if (aoff->c + size > o->size || aoff->c > o->size) { checkCond(st, tm.mkNot(a.g), "out-of-bounds", std::string(what) + " at offset " + std::to_string((int64_t)aoff->c) + " size " + std::to_string(size) + " of object of size " + std::to_string(o->size)); continue; }
+        out.push_back(Access{a.g, a.obj, (uint32_t)aoff->c}); continue;
+      }
+      PtrAlt a2 = a; a2.off = aoff; const PtrAlt& a = a2;
       checkUninitUse(st, a.off, "a memory address");
       Node* inb = tm.mkCmp(ULE, a.off, tm.mkConst(64, o->size >= size ? o->size - size : 0));
       if (o->size < size) inb = tm.F;
@@ -541,16 +577,16 @@ static vs::Value undefOf(Type* ty, const char* why) {
   if (ty->isIntegerTy()) { unsigned w = ty->getIntegerBitWidth(); if (w > 64) inconclusive("integer wider than 64 bits"); return vs::Value::I(tm.mkVar(w, std::string("undef") + std::to_string(uninitCounter++), true)); }
   if (ty->isPointerTy()) return vs::Value::P(nullPtr());
   if (ty->isFloatTy()) return vs::Value::I(tm.mkConst(32, 0)); if (ty->isDoubleTy()) return vs::Value::I(tm.mkConst(64, 0));
-  if (auto* sty = dyn_cast<StructType>(ty)) { AggVal* a = new AggVal(); for (unsigned i = 0; i < sty->getNumElements(); ++i) a->el.push_back(undefOf(sty->getElementType(i), why)); return vs::Value::A(a); }
-  if (auto* aty = dyn_cast<ArrayType>(ty)) { AggVal* a = new AggVal(); for (unsigned i = 0; i < aty->getNumElements(); ++i) a->el.push_back(undefOf(aty->getElementType(), why)); return vs::Value::A(a); }
+  if (auto* sty = dyn_cast<StructType>(ty)) { AggVal* a = newAggVal(); for (unsigned i = 0; i < sty->getNumElements(); ++i) a->el.push_back(undefOf(sty->getElementType(i), why)); return vs::Value::A(a); }
+  if (auto* aty = dyn_cast<ArrayType>(ty)) { AggVal* a = newAggVal(); for (unsigned i = 0; i < aty->getNumElements(); ++i) a->el.push_back(undefOf(aty->getElementType(), why)); return vs::Value::A(a); }
   inconclusive(std::string("undef of unsupported type: ") + why);
 }
 static vs::Value zeroOf(Type* ty) {
   if (ty->isIntegerTy()) return vs::Value::I(tm.mkConst(ty->getIntegerBitWidth(), 0));
   if (ty->isPointerTy()) return vs::Value::P(nullPtr());
   if (ty->isFloatTy()) return vs::Value::I(tm.mkConst(32, 0)); if (ty->isDoubleTy()) return vs::Value::I(tm.mkConst(64, 0));
-  if (auto* sty = dyn_cast<StructType>(ty)) { AggVal* a = new AggVal(); for (unsigned i = 0; i < sty->getNumElements(); ++i) a->el.push_back(zeroOf(sty->getElementType(i))); return vs::Value::A(a); }
-  if (auto* aty = dyn_cast<ArrayType>(ty)) { AggVal* a = new AggVal(); for (unsigned i = 0; i < aty->getNumElements(); ++i) a->el.push_back(zeroOf(aty->getElementType())); return vs::Value::A(a); }
+  if (auto* sty = dyn_cast<StructType>(ty)) { AggVal* a = newAggVal(); for (unsigned i = 0; i < sty->getNumElements(); ++i) a->el.push_back(zeroOf(sty->getElementType(i))); return vs::Value::A(a); }
+  if (auto* aty = dyn_cast<ArrayType>(ty)) { AggVal* a = newAggVal(); for (unsigned i = 0; i < aty->getNumElements(); ++i) a->el.push_back(zeroOf(aty->getElementType())); return vs::Value::A(a); }
   inconclusive("zero of unsupported type");
 }
 static vs::Value doCast(State& st, unsigned opc, const vs::Value& v, Type* from, Type* to);
@@ -572,8 +608,8 @@ static vs::Value evalConst(State& st, const Constant* C) {
   }
   if (isa<UndefValue>(C)) return undefOf(C->getType(), "constant");
   if (isa<ConstantAggregateZero>(C)) return zeroOf(C->getType());
-  if (auto* ca = dyn_cast<ConstantAggregate>(C)) { AggVal* a = new AggVal(); for (unsigned i = 0; i < ca->getNumOperands(); ++i) a->el.push_back(evalConst(st, ca->getOperand(i))); return vs::Value::A(a); }
-  if (auto* cd = dyn_cast<ConstantDataSequential>(C)) { AggVal* a = new AggVal(); for (unsigned i = 0; i < cd->getNumElements(); ++i) a->el.push_back(evalConst(st, cd->getElementAsConstant(i))); return vs::Value::A(a); }
+  if (auto* ca = dyn_cast<ConstantAggregate>(C)) { AggVal* a = newAggVal(); for (unsigned i = 0; i < ca->getNumOperands(); ++i) a->el.push_back(evalConst(st, ca->getOperand(i))); return vs::Value::A(a); }
+  if (auto* cd = dyn_cast<ConstantDataSequential>(C)) { AggVal* a = newAggVal(); for (unsigned i = 0; i < cd->getNumElements(); ++i) a->el.push_back(evalConst(st, cd->getElementAsConstant(i))); return vs::Value::A(a); }
   if (auto* ce = dyn_cast<ConstantExpr>(C)) {
     auto ev = [&](const llvm::Value* v) { return evalConst(st, cast<Constant>(v)); };
     switch (ce->getOpcode()) {
@@ -669,8 +705,13 @@ static vs::Value doBinop(State& st, unsigned opc, const vs::Value& a, const vs::
     case Instruction::Shl: op = SHL; break; case Instruction::LShr: op = LSHR; break; case Instruction::AShr: op = ASHR; break;
     default: inconclusive("unsupported binary op");
   }
-  if (op == UDIV || op == SDIV || op == UREM || op == SREM)
+  if (op == UDIV || op == SDIV || op == UREM || op == SREM) {
     checkCond(st, tm.mkNot(tm.mkEq(y, tm.mkConst(w, 0))), "div-by-zero", "division by zero");
+    // the divisor is non-zero on every path of this state: make its diagram total (a zero leaf left over from a merge
+    // is infeasible here) so that the leaf-wise operation is defined and the result stays a diagram
+    if (y->cleaf && !Terms::isC(y)) y = tm.mkIte(tm.mkEq(y, tm.mkConst(w, 0)), tm.mkConst(w, 1), y);
+    if (op == SDIV && y->cleaf && x->cleaf) { Node* m1 = tm.mkConst(w, maskw(w)); Node* mn = tm.mkConst(w, 1ULL << (w - 1)); Node* bad = tm.mkAnd(tm.mkEq(y, m1), tm.mkEq(x, mn)); if (!Terms::isFalse(bad)) { checkCond(st, tm.mkNot(bad), "signed-overflow", "INT_MIN / -1"); y = tm.mkIte(bad, tm.mkConst(w, 1), y); } }
+  }
   if ((op == SHL || op == LSHR || op == ASHR) && !(Terms::isC(y) && y->c < w))
     checkCond(st, tm.mkCmp(ULT, y, tm.mkConst(w, w)), "shift", "shift amount >= width");
   if (I && opt.checkNsw && w > 1 && w < 64 + 1) {
